@@ -146,3 +146,43 @@ package bundle
 //@     invariant[count] len(headers) + len(pseudos) == j
 //@     invariant headers != nil && pseudos != nil && fresh(headers) && fresh(pseudos) && headers != pseudos
 //@     invariant spos(dec.r) >= old(spos(dec.r)) && spos(dec.r) <= send(dec.r)
+
+// ---- writer side (C04, C19) ----------------------------------------------
+// A CountingWriter is itself an io.Writer. Its abstract writer state is not
+// stored but derived from its real state, so the abstract io.Writer contract
+// applied to a CountingWriter speaks about Written and the wrapped writer.
+//@ derive accepted(*CountingWriter) = this.Written ; touches accepted(this.w)
+//@ derive failed(*CountingWriter) = failed(this.w)
+//@ derive content(*CountingWriter) = content(this.w)
+
+//@ func NewCountingWriter
+//@   props C04 C19
+//@   requires !typeis(w, *CountingWriter)
+//@   ensures result != nil && fresh(result) && result.w == w && result.Written == 0
+//@   assigns nothing
+
+// (*CountingWriter).Write refines io.Writer.Write (same clauses over the
+// derived state) and moves Written and the wrapped writer together.
+//@ func (*CountingWriter).Write
+//@   props C04 C19
+//@   requires cw.w != nil && !typeis(cw.w, *CountingWriter) && !failed(cw)
+//@   ensures 0 <= n && n <= len(p)
+//@   ensures n < len(p) ==> err != nil
+//@   ensures[count] accepted(cw) == old(accepted(cw)) + n
+//@   ensures[underlying] accepted(cw.w) == old(accepted(cw.w)) + n
+//@   ensures failed(cw) == (err != nil)
+//@   ensures err == nil ==> content(cw) == cat(old(content(cw)), bytes(p))
+//@   assigns accepted(cw), failed(cw), content(cw)
+
+// ReadFrom (io.ReaderFrom): everything handed to the wrapped writer is
+// counted, and the count returned is that number.
+//@ func (*CountingWriter).ReadFrom
+//@   props C04 C19
+//@   requires cw.w != nil && !typeis(cw.w, *CountingWriter) && r != nil && !failed(cw)
+//@   ensures[count] accepted(cw) - old(accepted(cw)) == accepted(cw.w) - old(accepted(cw.w))
+//@   ensures[returned] n == accepted(cw.w) - old(accepted(cw.w))
+//@   ensures failed(cw) ==> err != nil
+//@   assigns accepted(cw), failed(cw), content(cw), spos(r)
+//@   loop 0:
+//@     invariant cw.w != nil && !failed(cw)
+//@     invariant accepted(cw) == old(accepted(cw)) && accepted(cw.w) - old(accepted(cw.w)) == 0
